@@ -29,18 +29,61 @@ def sigma_b(norb, b):
     return -1 if sum((norb - 1 - j) for j in range(norb) if (b >> j) & 1) % 2 else 1
 
 
+def _enc_matrix(name, nq):
+    """0/1 encoder matrix (row k = the modes whose parity is qubit k) of a named code.  Beyond the three library codes:
+    'inter' (openfermion interleaved_code), 'perm<k>' (the k-th seeded permutation code) and 'tri<k>' (the k-th seeded
+    lower unitriangular code with nq - 1 off-diagonal ones): families whose members share shape AND number of non-zeros,
+    so that nothing short of the matrix itself tells two of them apart"""
+    import random as _random
+    import numpy
+    if name is None or name == 'jw':
+        return numpy.eye(nq, dtype=int)
+    if name == 'parity':
+        return numpy.tril(numpy.ones((nq, nq), dtype=int))
+    if name == 'bk':
+        from openfermion.transforms import bravyi_kitaev_code
+        return numpy.asarray(bravyi_kitaev_code(nq).encoder.todense()).astype(int) % 2
+    if name == 'inter':
+        from openfermion.transforms import interleaved_code
+        return numpy.asarray(interleaved_code(nq).encoder.todense()).astype(int) % 2
+    if name.startswith('perm'):
+        r = _random.Random(7919 * int(name[4:]) + nq)
+        perm = list(range(nq))
+        r.shuffle(perm)
+        m = numpy.zeros((nq, nq), dtype=int)
+        for k, q in enumerate(perm):
+            m[k, q] = 1
+        return m
+    if name.startswith('tri'):
+        r = _random.Random(104729 * int(name[3:]) + nq)
+        m = numpy.eye(nq, dtype=int)
+        below = [(k, q) for k in range(nq) for q in range(k)]
+        for k, q in r.sample(below, min(len(below), nq - 1)):
+            m[k, q] = 1
+        return m
+    raise ValueError(name)
+
+
+def _gf2_inverse(m):
+    import numpy
+    n = m.shape[0]
+    a = numpy.concatenate([m % 2, numpy.eye(n, dtype=int)], axis=1)
+    for c in range(n):
+        piv = next(r for r in range(c, n) if a[r, c])
+        a[[c, piv]] = a[[piv, c]]
+        for r in range(n):
+            if r != c and a[r, c]:
+                a[r] = (a[r] + a[c]) % 2
+    return a[:, n:]
+
+
+CODE_NAMES = ['jw', 'parity', 'bk', 'inter', 'perm1', 'perm2', 'tri1', 'tri2']
+
+
 def code_rows(name, nq, rng=None):
     """rows[k] = list of modes whose parity is qubit k"""
-    if name is None or name == 'jw':
-        return [[k] for k in range(nq)]
-    if name == 'parity':
-        return [list(range(k + 1)) for k in range(nq)]
-    if name == 'bk':
-        import numpy
-        from openfermion.transforms import bravyi_kitaev_code
-        enc = numpy.asarray(bravyi_kitaev_code(nq).encoder.todense()) % 2
-        return [[q for q in range(nq) if enc[k, q]] for k in range(nq)]
-    raise ValueError(name)
+    enc = _enc_matrix(name, nq)
+    return [[q for q in range(nq) if enc[k, q]] for k in range(nq)]
 
 
 def gen_cases(rng, tier):
@@ -57,10 +100,18 @@ def gen_cases(rng, tier):
         else:
             nn, sz = 0, rng.randint(-norb, norb)
         keys = fqeio.sector_keys(norb, mode, nn, sz)
-        cases.append({'kind': 'export', 'norb': norb, 'mode': mode, 'n': nn, 'sz': sz,
-                      'vec': fqeio.random_state(rng, norb, keys, density=0.8),
-                      'vec2': fqeio.random_state(rng, norb, keys, density=0.8),
-                      'code': rng.choice([None, None, 'jw', 'parity', 'bk'])})
+        # every third configuration is exported with two codes of one look-alike family (same shape and number of
+        # non-zeros) one after the other, in the same worker process and on the same sector shapes, then with a third code
+        if _ % 3 == 0:
+            fam = rng.choice([['jw', 'inter', 'perm1', 'perm2'], ['tri1', 'tri2'], ['perm2', 'jw', 'perm1']])
+            codes = rng.sample(fam, 2) + [rng.choice([None, 'parity', 'bk'])]
+        else:
+            codes = [rng.choice([None, None] + CODE_NAMES)]
+        for code in codes:
+            cases.append({'kind': 'export', 'norb': norb, 'mode': mode, 'n': nn, 'sz': sz,
+                          'vec': fqeio.random_state(rng, norb, keys, density=0.8),
+                          'vec2': fqeio.random_state(rng, norb, keys, density=0.8),
+                          'code': code})
     # more orbitals (10-14 qubits), sparse states: index and sign per determinant beyond the toy sizes
     for _ in range(5 if tier == 'quick' else 30):
         norb = rng.randint(5, 7)
@@ -78,7 +129,7 @@ def gen_cases(rng, tier):
         def sp():
             return [[a, b, rng.randint(-3, 3) or 1, rng.randint(-3, 3)] for a, b in rng.sample(basis, min(len(basis), 16))]
         cases.append({'kind': 'export', 'norb': norb, 'mode': mode, 'n': nn, 'sz': sz, 'vec': sp(), 'vec2': sp(),
-                      'code': rng.choice([None, 'jw', 'parity', 'bk']), 'big': True})
+                      'code': rng.choice([None] + CODE_NAMES), 'big': True})
     for _ in range(40 if tier == 'quick' else 250):
         norb = rng.randint(1, 2 if tier == 'quick' else 3)
         nq = 2 * norb
@@ -95,7 +146,7 @@ def gen_cases(rng, tier):
         m = rng.choice(mags) if mags else 2
         thr2x = rng.choice([m, m - 1, m + 1, 1])
         cases.append({'kind': 'import', 'norb': norb, 'state': st, 'thr2x': max(thr2x, 1),
-                      'code': rng.choice([None, None, 'parity', 'bk'])})
+                      'code': rng.choice([None, None] + CODE_NAMES[1:])})
     # JW intertwining of sector-changing operators on multi-sector states
     for _ in range(20 if tier == 'quick' else 120):
         norb = rng.randint(2, 3)
@@ -119,7 +170,16 @@ def _code(name, nq):
     if name is None:
         return None
     from openfermion.transforms import jordan_wigner_code, parity_code, bravyi_kitaev_code
-    return {'jw': jordan_wigner_code, 'parity': parity_code, 'bk': bravyi_kitaev_code}[name](nq)
+    lib = {'jw': jordan_wigner_code, 'parity': parity_code, 'bk': bravyi_kitaev_code}
+    if name in lib:
+        return lib[name](nq)
+    if name == 'inter':
+        from openfermion.transforms import interleaved_code
+        return interleaved_code(nq)
+    from openfermion.ops import BinaryCode
+    from openfermion.transforms import linearize_decoder
+    enc = _enc_matrix(name, nq)
+    return BinaryCode(enc, linearize_decoder(_gf2_inverse(enc)))
 
 
 def _sparse(vec):
@@ -175,11 +235,12 @@ def _code_tokens(name, nq):
     return toks
 
 
-_COV = {'codes_lower_unitriangular': {}}
+_COV = {'codes_lower_unitriangular': {}, 'codes_with_certified_inverse': {}}
 
 
 def extra_coverage():
-    return {'codes_lower_unitriangular': dict(_COV['codes_lower_unitriangular'])}
+    return {'codes_lower_unitriangular': dict(_COV['codes_lower_unitriangular']),
+            'codes_with_certified_inverse': dict(_COV['codes_with_certified_inverse'])}
 
 
 def _check_code(model, code, nq):
@@ -189,7 +250,24 @@ def _check_code(model, code, nq):
     if key not in _COV['codes_lower_unitriangular']:
         toks = _code_tokens(code if code else 'jw', nq)
         _COV['codes_lower_unitriangular'][key] = model.q('UNITRI', *toks)[0] == '1'
+    if key not in _COV['codes_with_certified_inverse']:
+        # the decoder matrix is found here (GF(2) elimination); the extracted CodeInv.left_inv certifies it, which is what
+        # theorem C07_export_injective_certified_inverse asks for
+        enc = _enc_matrix(code if code else 'jw', nq)
+        inv = _gf2_inverse(enc)
+        rows = [[q for q in range(nq) if inv[k, q]] for k in range(nq)]
+        dtoks = [len(rows)]
+        for r in rows:
+            dtoks += [len(r)] + r
+        _COV['codes_with_certified_inverse'][key] = model.q('LINV', nq, *toks_of_rows(code_rows(code if code else 'jw', nq)), *dtoks)[0] == '1'
     return _COV['codes_lower_unitriangular'][key]
+
+
+def toks_of_rows(rows):
+    toks = [len(rows)]
+    for r in rows:
+        toks += [len(r)] + r
+    return toks
 
 
 def _export(model, norb, code, vec):
@@ -354,7 +432,9 @@ RULE = ('random multi-sector Gaussian-integer wavefunctions (all symmetry modes)
         'Bravyi-Kitaev codes, isometry + round trip; random sparse qubit vectors imported with thresholds equal '
         'to / just below / just above amplitude magnitudes; JW intertwining of sector-changing strings on '
         'spin-broken states. non-trivial: >= 2 exported amplitudes with a negative component / >= 2 sectors')
-NOT_PROVED = ['injectivity of the index map and the amplitude round trip are proved for the Jordan-Wigner code; for a general '
-              'invertible linear code (parity, Bravyi-Kitaev, ...) they are tied by correspondence only (no GF(2) matrix '
-              'inverse in the model); the intertwining theorems are per ladder operator at determinant level (strings and '
-              'linear combinations follow by Fock.v linearity, not restated here)']
+NOT_PROVED = ['injectivity of the index map is proved for every code with a certified left inverse '
+              '(C07_export_injective_certified_inverse; the certificate is checked by the extracted left_inv for every code '
+              'the correspondence uses) and, structurally, for Jordan-Wigner, parity and lower-unitriangular codes; the '
+              'amplitude round trip (import after export) is proved for the Jordan-Wigner code and tied by correspondence '
+              'for the others; the intertwining theorems are per ladder operator at determinant level (strings and linear '
+              'combinations follow by Fock.v linearity, not restated here)']
